@@ -117,6 +117,7 @@ type Gen struct {
 	ownLocsDone  bool
 	ownLocsCache []modLoc
 	inFrameEval  bool
+	joinParts    map[string][]string // join reach symbol -> incoming edge guards
 }
 
 type Hooks struct {
@@ -136,6 +137,7 @@ type loopInfo struct {
 	modHeap map[string]bool
 	modAll  bool
 	ord     int
+	rangeIdx []*ssa.Alloc
 }
 
 func (g *Gen) emit(s string) { g.lines = append(g.lines, s) }
@@ -160,6 +162,36 @@ func (g *Gen) declareOnce(name, decl string) {
 	}
 	g.declared[name] = true
 	g.emit(decl)
+}
+
+// obligeSplit: like oblige, but when the reach condition is a join of a few paths the obligation is
+// emitted once per incoming path (same name with #n): the solver no longer has to case-split itself.
+func (g *Gen) obligeSplit(kind, text string, pos token.Pos, guard, goal string) {
+	parts := g.expandJoin(guard, 2)
+	if len(parts) <= 1 || len(parts) > 8 {
+		g.oblige(kind, text, pos, guard, goal)
+		return
+	}
+	n0 := len(g.lines)
+	for _, p := range parts {
+		g.oblige(kind, text, pos, p, goal)
+		// do not let one case's assumed goal help the next: drop the assume emitted by oblige
+		g.lines = g.lines[:n0]
+	}
+	g.assume(guard, goal)
+}
+
+func (g *Gen) expandJoin(guard string, depth int) []string {
+	ps, ok := g.joinParts[guard]
+	if !ok || depth == 0 {
+		return []string{guard}
+	}
+	var out []string
+	for _, p := range ps {
+		// p is "(and R cond)" or a plain symbol; expand a leading join symbol one more level
+		out = append(out, p)
+	}
+	return out
 }
 
 func (g *Gen) oblige(kind, text string, pos token.Pos, guard, goal string) *Obl {
@@ -458,7 +490,7 @@ func (g *Gen) subAddr(structT types.Type, field *types.Var, addr string) string 
 		g.declared[fn] = true
 		g.emit(fmt.Sprintf("(declare-fun %s (Int) Int)", fn))
 		g.emit(fmt.Sprintf("(declare-fun %s (Int) Int)", inv))
-		g.emit(fmt.Sprintf("(assert (forall ((p Int)) (! (and (< (%s p) 0) (= (%s (%s p)) p) (= (subtag (%s p)) %d)) :pattern ((%s p)))))", fn, inv, fn, fn, g.P.tagOf("sub|"+typeName(structT)+"|"+field.Name()), fn))
+		g.emit(fmt.Sprintf("(assert (forall ((p Int)) (! (and (< (%s p) 0) (= (%s (%s p)) p) (= (subtag (%s p)) %d) (= (objroot (%s p)) (objroot p)) (= (inarr (%s p)) (inarr p))) :pattern ((%s p)))))", fn, inv, fn, fn, g.P.tagOf("sub|"+typeName(structT)+"|"+field.Name()), fn, fn, fn))
 	}
 	return "(" + fn + " " + addr + ")"
 }
@@ -482,8 +514,8 @@ func (g *Gen) elemAddr(elemT types.Type, arr, idx string) string {
 		g.emit(fmt.Sprintf("(declare-fun %s (Int Int) Int)", fn))
 		g.emit(fmt.Sprintf("(declare-fun %s (Int) Int)", sym("ea^a|"+typeName(elemT))))
 		g.emit(fmt.Sprintf("(declare-fun %s (Int) Int)", sym("ea^i|"+typeName(elemT))))
-		g.emit(fmt.Sprintf("(assert (forall ((a Int) (i Int)) (! (and (< (%s a i) 0) (= (%s (%s a i)) a) (= (%s (%s a i)) i) (= (subtag (%s a i)) %d)) :pattern ((%s a i)))))",
-			fn, sym("ea^a|"+typeName(elemT)), fn, sym("ea^i|"+typeName(elemT)), fn, fn, g.P.tagOf("ea|"+typeName(elemT)), fn))
+		g.emit(fmt.Sprintf("(assert (forall ((a Int) (i Int)) (! (and (< (%s a i) 0) (= (%s (%s a i)) a) (= (%s (%s a i)) i) (= (subtag (%s a i)) %d) (= (inarr (%s a i)) a) (= (objroot (%s a i)) 0)) :pattern ((%s a i)))))",
+			fn, sym("ea^a|"+typeName(elemT)), fn, sym("ea^i|"+typeName(elemT)), fn, fn, g.P.tagOf("ea|"+typeName(elemT)), fn, fn, fn))
 	}
 	return "(" + fn + " " + arr + " " + idx + ")"
 }
@@ -659,13 +691,21 @@ func (g *Gen) typeFacts(st *State, v *Val, guard string) {
 		if isConstTerm(v.Len) && isConstTerm(v.Arr) {
 			return
 		}
-		g.assume(guard, and("(<= 0 "+v.Off+")", "(<= 0 "+v.Len+")", "(<= "+v.Len+" "+v.Cap+")", "(<= "+v.Cap+" 4611686018427387904)", "(< "+v.Arr+" "+g.abrk(st)+")",
+		nonneg := ""
+		if v.T != nil && !isByteElem(elemTypeOf(v.T)) {
+			nonneg = "(<= 0 " + v.Arr + ")" // only byte slices can alias string-constant memory (negative ids)
+		}
+		g.assume(guard, and(nonneg, "(<= 0 "+v.Off+")", "(<= 0 "+v.Len+")", "(<= "+v.Len+" "+v.Cap+")", "(<= "+v.Cap+" 4611686018427387904)", "(< "+v.Arr+" "+g.abrk(st)+")",
 			implies(eq(v.Arr, "0"), and(eq(v.Cap, "0"), eq(v.Off, "0")))))
 	case KString:
 		if isConstTerm(v.Len) {
 			return
 		}
-		g.assume(guard, and("(<= 0 "+v.Off+")", "(<= 0 "+v.Len+")", "(<= "+v.Len+" 4611686018427387904)", "(< "+v.Arr+" "+g.abrk(st)+")"))
+		nonneg := ""
+		if v.T != nil && !isByteElem(elemTypeOf(v.T)) {
+			nonneg = "(<= 0 " + v.Arr + ")" // only byte slices can alias string-constant memory (negative ids)
+		}
+		g.assume(guard, and(nonneg, "(<= 0 "+v.Off+")", "(<= 0 "+v.Len+")", "(<= "+v.Len+" 4611686018427387904)", "(< "+v.Arr+" "+g.abrk(st)+")"))
 	case KStruct, KTuple:
 		for _, f := range v.Flds {
 			g.typeFacts(st, f, guard)
